@@ -1,8 +1,10 @@
 """C03 — integration is linear in (density, theta0) and independent of the reference size.
 K: time-step rule, injection, one full sweep and short multi-step drivers (const and affine-in-time
 parameters) vs the exact-rational model, frozen/nomut flags on.
-L3: superposition and re-scaling residuals on one_pop..five_pops (constant and time-varying parameters),
-on the equilibrium constructors, and on whole library models."""
+L3: superposition and re-scaling residuals on one_pop..five_pops (constant and time-varying parameters, Integration.use_delj_trick
+off and on, parameter regimes moderate / ten decades wide / strong effective selection, members of very different absolute size),
+on the equilibrium constructors (effective selection drawn per regime, raw coefficients placed on either side of a pivot), and on
+whole models.  T: the regime switches of phi_1D / phi_1D_genic as functions of the call's arguments (Generated/EqSwitch.lean)."""
 import numpy as np, math
 from . import common, gen
 from .common import rat, fmt_list, fmt_nd, fmt_grids, parse_nd, close
@@ -176,13 +178,17 @@ def l3_superposition(chk, ctx, rng, n, tier):
             a, b = abs(a), abs(b)
         # degenerate members of the family, where a shortcut on "nothing to do" would go wrong: a zero density with theta0 != 0
         # ((phi, th) = (phi, 0) + (0, th)), and a combination whose densities cancel exactly while the mutation rates do not;
-        # and members far from unit size (everything tiny / everything huge): a cut-off on the absolute size of a density
-        # entry or of the mutation influx would break additivity there
-        shape = ['generic', 'zero-density', 'cancelling', 'generic', 'tiny', 'huge'][(it // 5) % 6]
+        # and members far from unit size: a cut-off on the absolute size of a density entry or of the mutation influx would
+        # break additivity there — 'mixed': one member is tiny and enters with a correspondingly large coefficient, so that the
+        # member and the combination sit on opposite sides of any such cut-off; 'tiny' / 'huge': everything is
+        shape = ['generic', 'zero-density', 'cancelling', 'mixed', 'tiny', 'huge'][(it // 5) % 6]
         if shape == 'zero-density':
             phi2 = np.zeros_like(phi1); th1 = 0.0; a, b = 1.0, 1.0; th2 = max(th2, 0.1)
         elif shape == 'cancelling':
             phi2 = phi1.copy(); a, b = 1.0, -1.0; th1, th2 = max(th1, th2) + 0.5, min(th1, th2)
+        elif shape == 'mixed':
+            s1 = gen.loguniform(rng, 1e-14, 1e-4)
+            phi1 = phi1 * s1; th1 = max(th1, 0.1) * s1; a = (abs(a) + 0.1) / s1; b = abs(b) + 0.1
         elif shape == 'tiny':
             s1, s2 = gen.loguniform(rng, 1e-14, 1e-6), gen.loguniform(rng, 1e-14, 1e-6)
             phi1 = phi1 * s1; th1 = th1 * s1; phi2 = phi2 * s2; th2 = th2 * s2; a, b = abs(a) + 0.1, abs(b) + 0.1
@@ -477,8 +483,12 @@ def l3_models(chk, ctx, rng, n):
 def run(chk, ctx):
     tier = ctx['tier']; rng = common.Rng(ctx['seed'], 'C03')
     chk.rule = ('K: dt rule on random 1-5 population parameter sets; one full time step / 1-3 step const and affine-in-time runs in 1-5 populations, '
-                'random grids, flags; L3: superposition and re-scaling residuals on the public integrators (constant and time-varying), equilibrium '
-                'constructors, composite models. non-trivial = distinct (clause, d, varying, flags, scale class)')
+                'random grids, flags; L3: superposition and re-scaling residuals on the public integrators (constant and time-varying, delj trick off/on, '
+                'regimes moderate / wide (rates log-uniform 1e-9..30, c a power of two) / strong (|gamma*nu| 30..600, nu 0.02..50); members of the '
+                'superposition generic, zero, cancelling, mixed tiny+huge, all tiny, all huge), equilibrium constructors (gamma*nu per stratum '
+                'weak/mid/near/strong, raw gamma of the two parameterisations on opposite sides of a pivot in 20..2000, entry-wise comparison, '
+                'phi_1D_X), composite models incl. ancestral size != reference with selection. non-trivial = distinct (clause, d, varying, '
+                'delj, regime, flags, scale class)')
     chk.unproved = ['"up to round-off": exact invariance is proved for rational arithmetic; float agreement is checked at 1e-9..1e-10',
                     'phi-manipulation steps (split/admix/sample) take no scaled parameter — by inspection + L3 on composite models']
     q = tier == 'quick'
